@@ -1,3 +1,5 @@
+import XPathV.Lemmas.Facts
+import XPathV.Generated.ExtraFacts
 import XPathV.Lemmas.C09Base
 import XPathV.Lemmas.StringFns
 /-!
@@ -98,5 +100,23 @@ theorem C09_nested_total (e : Ast) (h : StrE e) (d : Doc) (cfg : ECfg) (c : Ref)
     ∃ o s, build regexOk limit sn sd e {} st = .ok o ∧
       evaluate (F := F) d cfg o.q c = .ok (.str s) ∧ Spec.evalTop (F := F) d e c = .ok (.str s) :=
   strE_total e h d cfg c regexOk limit sn sd st hd
+
+/-! ## T0: what the regenerated facts say about the current source (leaf theorems: nothing builds on them, so a
+change of the source that invalidates one of them stops only this module) -/
+
+/-- T0 (F3): each string function's arity window in `processFunction` -/
+theorem string_function_arities :
+    (Generated.funcTable.filter (fun e => e.names.any (fun n => ["concat", "contains", "starts-with", "ends-with",
+        "substring", "substring-before", "substring-after", "string-length", "normalize-space", "translate",
+        "lower-case", "string-join"].contains n))).map (fun e => (e.names, e.minArgs, e.maxArgs)) =
+    [(["lower-case"], 1, none), (["starts-with"], 2, none), (["ends-with"], 2, none), (["contains"], 2, none),
+     (["substring"], 2, none), (["substring-before", "substring-after"], 2, some 2), (["string-length"], 1, none),
+     (["normalize-space"], 0, none), (["translate"], 3, some 3), (["concat"], 2, none), (["string-join"], 2, some 2)] := by decide
+
+/-- T0: the bounds `substringFunc` computes are the ones `substringM` models:
+`first = xpathRound(start)`, `last = first + xpathRound(length)` (or +Inf), clipped to `[1, len+1]`
+(`xpathRound` itself is `xpathRoundM`, compared with the code by the substring sweep) -/
+theorem substring_bounds_source_ok : Generated.substringBoundsSrc =
+    ["first:=xpathRound(start)", "last:=math.Inf(1)", "last=first+xpathRound(length)", "first=1", "last=float64(len(m)+1)"] := rfl
 
 end XPathV.Theorems.C09
